@@ -24,6 +24,9 @@ CLAIMED = {
  "C16": dict(technique="effect summaries of all operator implementations and query functions + must-write (all-paths) analysis of the snapshot copy routine; guard-dominance analysis of flow_graph mutators",
              text="Decides copy completeness of graph snapshots (every member operators write and snapshot queries read is copied on every path, with column-shape reasoning) and that every mutating public method is dominated by the read-only guard, for all 7 grid instantiations. Equality with a prefix-only graph on all inputs is not decided as such.",
              ref="§5 C16"),
+ "C09": dict(technique="effect summaries vs declared constexpr flags; guard analysis of the const_cast pass-through; interprocedural must-kill-before-read audit of all members that persist between calls; unordered-iteration / heap-comparator totality rule; parameter-capture rule; who-may-write purity of the neighbour memo",
+             text="Decides, for all 7 grid instantiations and all paths, the shape-level sources of impurity of update_routes: undeclared elevation writes, const_cast pass-through, every persistent member read before being reset (with a reasoned exception table), history-dependent iteration order feeding a heap, operator parameters frozen by cached helpers, impure neighbour memo. Bit-equality of floating-point results as such is not decided.",
+             ref="§5 C09"),
 }
 NA = {}
 DEFAULT_NA = "check not implemented yet (framework under construction)"
